@@ -1,6 +1,7 @@
 package verifx
 
 import (
+	"bytes"
 	"crypto/sha256"
 	"errors"
 	"fmt"
@@ -30,9 +31,17 @@ type clientTxnSys struct {
 	retMu               sync.Mutex
 	rets                []Obs
 	nStarted, nReturned int
+	kept                []keptRes
 	started             map[string]bool
 	rto                 time.Duration
 	slow                map[string]chan struct{} // first write of t is parked until released
+}
+
+// keptRes: a result handed to a caller; it stays that caller's (later traffic must not change it)
+type keptRes struct {
+	t   string
+	id  [stun.TransactionIDSize]byte
+	msg *stun.Message
 }
 
 var errInjectedWrite = errors.New("memnet: injected write error")
@@ -151,6 +160,9 @@ func (s *clientTxnSys) Do(a map[string]any, wait func()) ([]Obs, error) {
 			switch {
 			case err == nil && res.Msg != nil && res.Msg.TransactionID == id:
 				o["res"] = "resp"
+				s.retMu.Lock()
+				s.kept = append(s.kept, keptRes{t: t, id: id, msg: res.Msg})
+				s.retMu.Unlock()
 			case err == nil:
 				o["res"] = "otherresp"
 			case errors.Is(err, errInjectedWrite) || containsStr(err.Error(), "injected write") || containsStr(err.Error(), "retransmit"):
@@ -168,6 +180,9 @@ func (s *clientTxnSys) Do(a map[string]any, wait func()) ([]Obs, error) {
 		}()
 	case "Response":
 		m := stun.MustBuild(txidSetter(s.id(t)), stun.BindingSuccess, &stun.XORMappedAddress{IP: net.IPv4(10, 0, 0, 11), Port: 40001})
+		_, _ = s.server.WriteTo(m.Raw, s.cconn.addr)
+	case "Indication":
+		m := stun.MustBuild(txidSetter(s.id(t)), stun.NewType(stun.MethodBinding, stun.ClassIndication), &stun.XORMappedAddress{IP: net.IPv4(203, 0, 113, 66), Port: 6666})
 		_, _ = s.server.WriteTo(m.Raw, s.cconn.addr)
 	case "Foreign":
 		h := sha256.Sum256([]byte(fmt.Sprintf("foreign/%d/%d", s.seed, len(s.rets))))
@@ -267,6 +282,18 @@ func (s *clientTxnSys) Check(e Edge, obs []Obs) []Mismatch {
 			pending++
 		}
 	}
+	// results handed out earlier still are what they were: the response of THAT transaction, decodable, with its address
+	s.retMu.Lock()
+	for _, k := range s.kept {
+		var xm stun.XORMappedAddress
+		cp := &stun.Message{Raw: append([]byte{}, k.msg.Raw...)}
+		if len(k.msg.Raw) < 20 || !bytes.Equal(k.msg.Raw[8:20], k.id[:]) || cp.Decode() != nil || xm.GetFrom(cp) != nil || xm.Port != 40001 {
+			ms = append(ms, Mismatch{"txn", fmt.Sprintf("the result returned for %s no longer is that transaction's response (its bytes changed after it was handed to the caller)", k.t)})
+
+			break
+		}
+	}
+	s.retMu.Unlock()
 	if n := s.cl.VerifTransactionCount(); n != pending {
 		ms = append(ms, Mismatch{"txn.table", fmt.Sprintf("transaction table holds %d entries, %d transactions are pending", n, pending)})
 	}
